@@ -304,11 +304,27 @@ func (w *vfWorld) effectOf(r *concReq) string {
 	case "totp_new":
 		return yes(prof.PendingTOTPSecret != nil)
 	case "totp_validate_new":
-		return yes(len(prof.TOTPAuthData) >= 2 || (ok && len(prof.TOTPAuthData) >= 1 && !f.TOTPEnabled))
+		for i := range prof.TOTPAuthData {
+			if i != f.TOTPIndex || !f.TOTPEnabled {
+				return "present" // a device other than the one enrolled in the prefix
+			}
+		}
+		return "absent"
 	case "u2f_regreq":
 		return yes(prof.RegistrationChallenge != nil)
 	case "u2f_regresp":
-		return yes(len(prof.U2fAuthData) > len(f.U2FTokens))
+		for i := range prof.U2fAuthData {
+			known := false
+			for _, t := range f.U2FTokens {
+				if t.Index == i {
+					known = true
+				}
+			}
+			if !known {
+				return "present" // a token other than those enrolled in the prefix
+			}
+		}
+		return "absent"
 	case "totp":
 		if r.Upgrade != "" {
 			return yes(prof.LastSuccessfullTOTPCounter > 0)
@@ -394,20 +410,25 @@ func concPost(t *testing.T, plan *vfPlan, res *vfResult) {
 		if !r.Ack || r.Effect != "absent" {
 			continue
 		}
-		presentSerially := 0
+		ackedSerially, presentSerially := 0, 0
 		for _, s := range serial {
 			for _, sr := range s.Reqs {
 				a, b := sr.Step, r.Step
 				a.Par, b.Par, a.Serial, b.Serial = 0, 0, false, false
-				if a.String() == b.String() && sr.Ack && sr.Effect == "present" {
-					presentSerially++
+				if a.String() == b.String() && sr.Ack {
+					ackedSerially++
+					if sr.Effect == "present" {
+						presentSerially++
+					}
 					break
 				}
 			}
 		}
-		if presentSerially == len(serial) && len(reqs) == 2 {
+		// in every sequential order in which the request is acknowledged its effect is stored
+		if ackedSerially >= 1 && presentSerially == ackedSerially && len(reqs) == 2 {
 			other := reqs[1-i]
-			key := fmt.Sprintf("lost-update:%s:by:%s", r.Op, famOf(other.Step))
+			// identified by the call site that overwrites the stored profile with a stale snapshot
+			key := fmt.Sprintf("lost-update:stale-save-by:%s", famOf(other.Step))
 			res.Violations = append(res.Violations, vfViolation{Prop: "C16", Class: "lost-update", Key: key,
 				Detail: fmt.Sprintf("%s answered %d but its effect is not stored at the end (it is in both sequential orders); concurrent request: %s (%d)", r.Op, r.Code, other.Op, other.Code), Step: idx[1]})
 			return
